@@ -428,6 +428,9 @@ func init() {
 			e.addAxioms(c.Neq(cancel.ID, c.BVC(0, 64)))
 			return &TupleV{Vs: []Value{ctx, cancel}}
 		},
+		// a context that is never done: its deadline lies beyond every clock value
+		"context.Background": ctxNever,
+		"context.TODO":       ctxNever,
 		"time.After": func(e *Exec, st *State, f *ssa.Function, args []Value, pos token.Pos) Value {
 			return Scalar{T: e.C.App("timer_after", refSort, args[0].(Scalar).T), Typ: f.Signature.Results().At(0).Type()}
 		},
@@ -571,6 +574,22 @@ func init() {
 			return Scalar{T: e.hexEncode(st, e.sliceSeq(st, args[0].(*SliceV))), Typ: types.Typ[types.String]}
 		},
 	}
+}
+
+func ctxNever(e *Exec, st *State, f *ssa.Function, args []Value, pos token.Pos) Value {
+	c := e.C
+	ng := map[string]Value{}
+	for k, v := range st.ghost {
+		ng[k] = v
+	}
+	if _, set := ng["ctxdeadline"]; !set {
+		// clock values stay below 2^62 (see the ghost clock)
+		ng["ctxdeadline"] = Scalar{T: c.BVC(uint64(1)<<62+1, 64), Typ: intTyp}
+		st.ghost = ng
+	}
+	ctx := e.fresh(f.Signature.Results().At(0).Type(), "ctx").(*IfaceV)
+	e.addAxioms(c.Not(e.ifaceNil(ctx)))
+	return ctx
 }
 
 func leGet(w int) nativeFn {
